@@ -112,10 +112,11 @@ def run(ctx: Ctx) -> None:
     n = ctx.pick(48, 480)
     jobs = []
     for i in range(n):
-        backend = "sv" if i % 2 == 0 else "mps"
-        na = rng.choice([2, 3, 4, 5])
-        spec = scen.sequence_spec(rng, na, scen.WF_KINDS[i % 5], scen.PHASE_KINDS[(i // 2) % 4], scen.DMM_KINDS[(i // 3) % 3], "none", rng.choice([20, 40, 60]))
+        # full factorial transformation x backend x phase kind (48 cells); waveform and DMM kinds rotate independently
         tau = TAUS[i % len(TAUS)]
+        backend = "sv" if (i // 6) % 2 == 0 else "mps"
+        na = rng.choice([2, 3, 4, 5])
+        spec = scen.sequence_spec(rng, na, scen.WF_KINDS[(i + i // 5) % 5], scen.PHASE_KINDS[(i // 12) % 4], scen.DMM_KINDS[(i + i // 6) % 3], "none", rng.choice([20, 40, 60]))
         if tau == "phase_negate":
             # phi -> -phi maps H to its complex conjugate, i.e. to the TIME-REVERSED dynamics; it is a symmetry of the
             # reported quantities only when all pulses share one phase (then it is a constant offset, see DESIGN 4/C29).
@@ -129,7 +130,7 @@ def run(ctx: Ctx) -> None:
         dt = float(rng.choice([d for d in (2, 4, 5, 10) if dur % d == 0]))
         times = [0.5, 1.0]
         obs = [{"k": "occupation", "times": times}, {"k": "correlation_matrix", "times": times}, {"k": "energy", "times": times}, {"k": "bitstrings", "times": [1.0], "shots": 2000}]
-        jobs.append({"id": i + 1, "backend": backend, "a": spec, "b": b, "tau": tau, "dt": dt, "tol": 1e-10, "precision": 1e-7, "reorder": i % 4 != 1,
+        jobs.append({"id": i + 1, "backend": backend, "a": spec, "b": b, "tau": tau, "dt": dt, "tol": 1e-10, "precision": 1e-7, "reorder": (i // 6) % 4 != 1,
                      "obs": obs, "seed": ctx.seed * 31 + i, "n": na, "steps": int(dur // dt)})
     results = pmap(worker, jobs)
     traces, meta = [], {}
